@@ -1,5 +1,6 @@
 import Driver.OpsXtce
 import Spp.Model.XmlWrite
+import Spp.Props.C09Regime
 namespace Driver
 open Spp
 
@@ -186,6 +187,33 @@ def cycle (d : LDef) : String :=
           | .ok g3 => "ok G1 " ++ showXml g1 ++ " D2 " ++ showLDef d2 ++ " G2 " ++ showXml g2 ++ " D3 " ++ showLDef d3 ++
                       " G3 " ++ showXml g3
 
+/-- Is the definition inside the regime of `C09.definition_roundtrip`?  The verdict `in` is `C09.inRegime` (proved sound:
+    `C09.inRegime_sound`); the part named after `out` is diagnostic only (first conjunct of the test that fails). -/
+def regimeReport (d : LDef) : String :=
+  if C09.inRegime d then "in" else
+  let parts : List (String × Bool) := [
+    ("namespace", d.nsPrefix.isNone || d.nsmap.any (·.1 == d.nsPrefix)),
+    ("space-system-name", d.spaceSystemName != some ""),
+    ("type-keys", d.ptypes.all (fun kv => kv.1 == kv.2.name) && decide (UniqueKeys d.ptypes)),
+    ("type-plain-or-enum-or-time", d.ptypes.all (fun kv => C09.ptypeWFb kv.2)),
+    ("parameter-keys", d.params.all (fun kv => kv.1 == kv.2.name) && decide (UniqueKeys d.params)),
+    ("parameter-description", d.params.all (fun kv => kv.2.longDesc != some "")),
+    ("parameter-type-declared", d.params.all (fun kv => d.ptypes.any (·.1 == kv.2.typeName))),
+    ("containers-in-dependency-order", C09.sortedFromb d.params [] d.containers),
+    ("inheritor-lists", d.containers.all (fun kv => kv.2.inheritors == C17.basedOn d.containers kv.1)),
+    ("tables-in-cache-order", (match C09.cachesOf d.ptypes d.params d.containers with
+       | .ok r => decide (r = (d.ptypes, d.params, d.containers)) | .error _ => false))]
+  match parts.find? (fun p => !p.2) with
+  | some p =>
+    if p.1 == "type-plain-or-enum-or-time" then
+      -- say which kind of type, and whether its encoding is the reason
+      match d.ptypes.find? (fun kv => !C09.ptypeWFb kv.2) with
+      | some kv => "out type " ++ kv.2.tag ++ (if C09.encWFb kv.2.enc then " shape" else
+          (match kv.2.enc with | .num _ => " numeric-encoding" | .str _ => " string-encoding" | .bin _ => " binary-encoding"))
+      | none => "out type"
+    else "out " ++ p.1
+  | none => "out unknown"
+
 def opsXml (op : String) (args : List SExp) : Option String :=
   match op, args with
   | "load", [pfx, nsmap, root, tree] => do
@@ -208,6 +236,9 @@ def opsXml (op : String) (args : List SExp) : Option String :=
   | "cycleobj", [d] => do
       let d ← parseLDef d
       pure (unsup d cycle)
+  | "regime", [d] => do
+      let d ← parseLDef d
+      pure (unsup d regimeReport)
   | "showfloat", [v] => do
       let v ← v.val?
       pure (match v with
